@@ -347,10 +347,11 @@ def _runs(ck, n, modes, presets=()):
 # a small covering set that every tier runs first: both signals x exit checks on/off x the failure-handling flags x both instants
 SIGNAL_PRESETS = (('term', {'when': 'in-function', 'nworkers': 1, 'opts': ['--no-check-environment']}),
                   ('int', {'when': 'in-function', 'nworkers': 1, 'opts': ['--keep-going', '--keep-failed']}),
+                  ('term', {'when': 'in-function', 'nworkers': 1, 'opts': []}),
+                  ('int', {'when': 'in-function', 'nworkers': 2, 'victim': 0, 'opts': ['--no-check-environment', '--aggressive-unload']}),
                   ('term', {'when': 'in-wait-loop', 'opts': ['--keep-going']}),
-                  ('int', {'when': 'in-function', 'nworkers': 2, 'opts': ['--no-check-environment', '--aggressive-unload']}),
-                  ('term', {'when': 'in-function', 'nworkers': 2, 'opts': ['--keep-failed', '--aggressive-unload']}),
-                  ('int', {'when': 'in-wait-loop', 'opts': ['--no-check-environment', '--keep-failed']}))
+                  ('int', {'when': 'in-wait-loop', 'opts': ['--no-check-environment', '--keep-failed']}),
+                  ('term', {'when': 'in-function', 'nworkers': 2, 'opts': ['--keep-failed', '--aggressive-unload']}))
 
 
 def signal_runs(ck, n):
@@ -465,7 +466,14 @@ def failure_run(rng, params=None):
             from jug.backends.file_store import file_store
             st = file_store(os.path.join(root, 'jd'))
             locks = sorted(('failed' if st.getlock(nm).is_failed() else 'held') for nm in st.listlocks())
-            return sorted(v[1][1] for v in vals), locks
+            want = [json.loads(json.dumps(r)) for r in reference(edges)]
+            stored = []
+            for key, v in vals:
+                if v in want:
+                    stored.append(want.index(v))
+                else:
+                    found.append({'what': 'process-run: a stored value is not the value of any task', 'value': repr(v)[:200]})
+            return sorted(stored), locks
 
         def judge(p, lo, tag):
             log = [r for r in read_log(root)[lo:] if r[1] == p.pid]
